@@ -1,4 +1,4 @@
-"""R12.5 / R12.6 of C12: what the state machine matcher proposes as a redirect.
+"""R12.5 / R12.6 / R12.7 of C12 (what the state machine matcher proposes as a redirect) and the constant executor of R12.8.
 
 Nothing here is keyed on a local's name or on the text of a statement.  The
 roles are found structurally:
@@ -649,3 +649,750 @@ def matcher_rules(ctx: Ctx) -> None:
                         ok, fact = paths.same(walked[0][0], walked[0][1], ps[0][1], rnode, fn)
                         ctx.ob("R12.6", inst, ok, fact + f" (target `{norm(arg)}`)", where, r, key)
     ctx.floor("R12.6", "handlers that turn the slash signal into RequestPath", n_h, 1)
+
+
+# ---------------------------------------------------------------------
+# R12.7: the alias-redirect signal carries the complete match result
+#
+# The matcher hands matched values on at two kinds of places: the returns of ``match`` (the match result) and the
+# raises of the alias signal (from which the adapter builds the canonical URL).  The redirect target can only denote
+# the same arguments when everything that goes into the result's values has also gone into the signal's values.  What
+# "goes into" a mapping is computed as may-flow over the CFG: the definitions reaching the place, every statement that
+# writes into the mapping (item store, mutating method call, being passed to a helper) and can still be followed by the
+# place under consistent guards, each traced back to the attribute chains / parameters / loop sources it reads.
+
+
+_MUTATORS = {"update", "setdefault", "__setitem__", "append", "extend", "add", "insert", "__ior__"}
+_COPIERS = {"dict", "MultiDict", "OrderedDict", "ImmutableDict", "copy", "deepcopy"}
+
+
+def _attr_chain(e: ast.AST) -> tuple[ast.AST, list[str]]:
+    attrs: list[str] = []
+    while isinstance(e, ast.Attribute):
+        attrs.insert(0, e.attr)
+        e = e.value
+    return e, attrs
+
+
+def _pure_atom(e: ast.AST) -> bool:
+    return all(isinstance(n, (ast.Name, ast.Attribute, ast.Compare, ast.Constant, ast.UnaryOp, ast.cmpop, ast.unaryop, ast.expr_context)) for n in ast.walk(e))
+
+
+class Flow:
+    """what may have flowed into a local value at a CFG node of one matcher function."""
+
+    def __init__(self, m: Matcher, fn: ast.AST):
+        from ..guards import canon  # local import: keeps the module header as it was
+
+        self.canon = canon
+        self.m, self.fn = m, fn
+        self.g = m.graphs[id(fn)]
+        self.rd = m.rd(fn)
+        self._reach: dict[int, set[int]] = {}
+        self._guards: dict[int, dict[str, tuple[bool, Node]]] = {}
+        self.writes: dict[str, list[tuple[Node, list[ast.AST], str]]] = {}
+        for n in self.g.nodes:
+            if n.ast is None or n.kind not in ("stmt", "test"):
+                continue
+            a = n.ast
+            if isinstance(a, (ast.Assign, ast.AnnAssign, ast.AugAssign)) and a.value is not None:
+                for tg in (a.targets if isinstance(a, ast.Assign) else [a.target]):
+                    for x in (tg.elts if isinstance(tg, (ast.Tuple, ast.List)) else [tg]):
+                        if isinstance(x, (ast.Subscript, ast.Attribute)):
+                            root = astq.chain_root(x)
+                            if isinstance(root, ast.Name):
+                                flows = [a.value] + ([x.slice] if isinstance(x, ast.Subscript) else [])
+                                self.writes.setdefault(root.id, []).append((n, flows, norm(a)[:70]))
+            for c in (x for x in [a, *walk_no_nested(a)] if isinstance(x, ast.Call)):
+                f = c.func
+                args = [x.value if isinstance(x, ast.Starred) else x for x in c.args] + [k.value for k in c.keywords]
+                if isinstance(f, ast.Attribute) and isinstance(f.value, ast.Name) and f.attr in _MUTATORS:
+                    self.writes.setdefault(f.value.id, []).append((n, args, norm(c)[:70]))
+                elif isinstance(a, ast.Expr) and a.value is c:
+                    # a call made for its effect with the value among its arguments: a helper that may fill it
+                    for x in args:
+                        if isinstance(x, ast.Name):
+                            others = [y for y in args if y is not x] + ([f.value] if isinstance(f, ast.Attribute) and not astq.is_name(f.value, "self") else [])
+                            self.writes.setdefault(x.id, []).append((n, others, norm(c)[:70]))
+
+    def reach_from(self, n: Node) -> set[int]:
+        r = self._reach.get(n.id)
+        if r is None:
+            r = self._reach[n.id] = self.g.reach([s for s, lb in n.succs if lb != "raise"])
+        return r
+
+    def guards(self, n: Node) -> dict[str, tuple[bool, Node]]:
+        r = self._guards.get(n.id)
+        if r is None:
+            r = {}
+            for tn, lb in self.g.guards(n):
+                if tn.kind == "test" and tn.ast is not None and _pure_atom(tn.ast) and tn.id not in self.reach_from(tn):
+                    k, p = self.canon(tn.ast)
+                    r[k] = ((lb == "T") == p, tn)
+            self._guards[n.id] = r
+        return r
+
+    def contradict(self, a: Node, b: Node) -> str | None:
+        """a and b lie under opposite outcomes of the same pure condition (over the same definitions): no run passes both."""
+        ga, gb = self.guards(a), self.guards(b)
+        for k, (va, ta) in ga.items():
+            if k in gb and gb[k][0] != va:
+                tb = gb[k][1]
+                if all(self.rd.reaching(ta, nm) == self.rd.reaching(tb, nm) for nm in astq.names_in(ta.ast)):  # type: ignore[arg-type]
+                    return k
+        return None
+
+    def of_name(self, name: str, node: Node, seen: set[tuple[str, int]], skipped: list[str]) -> set[str]:
+        if (name, node.id) in seen:
+            return set()
+        seen.add((name, node.id))
+        defs = self.rd.reaching(node, name)
+        if not defs:
+            return {name}  # a name of an enclosing scope
+        out: set[str] = set()
+        for d in defs:
+            if d.kind in ("assign", "walrus") and d.value is not None and d.node is not None:
+                out |= self.sources(d.value, d.node, seen, skipped)
+            elif d.kind == "aug" and d.value is not None and d.node is not None:
+                out |= self.of_name(name, d.node, seen, skipped) | self.sources(d.value, d.node, seen, skipped)
+            elif d.kind in ("for", "with") and d.value is not None and d.node is not None:
+                out |= self.sources(d.value, d.node, seen, skipped) or {name}
+            else:
+                out.add(name)  # parameter, element of an unpacked call result, exception, ...
+        for wn, flows, text in self.writes.get(name, []):
+            if wn is node or node.id not in self.reach_from(wn) or not (self.rd.reaching(wn, name) & defs):
+                continue
+            k = self.contradict(wn, node)
+            if k is not None:
+                skipped.append(f"`{text}` (only when `{k}` is {self.guards(wn)[k][0]})")
+                continue
+            for x in flows:
+                out |= self.sources(x, wn, seen, skipped)
+        return out
+
+    def sources(self, e: ast.AST, node: Node, seen: set[tuple[str, int]], skipped: list[str]) -> set[str]:
+        if isinstance(e, ast.Name):
+            return self.of_name(e.id, node, seen, skipped)
+        if isinstance(e, ast.Attribute):
+            base, attrs = _attr_chain(e)
+            if isinstance(base, ast.Name):
+                roots = self._alias_roots(base.id, node, 0)
+                return {r + "." + ".".join(attrs) for r in roots}
+            return self.sources(base, node, seen, skipped)
+        if isinstance(e, (ast.Lambda, ast.FunctionDef, ast.AsyncFunctionDef, ast.Constant)):
+            return set()
+        out: set[str] = set()
+        if isinstance(e, ast.Call):
+            if isinstance(e.func, ast.Attribute):
+                out |= self.sources(e.func.value, node, seen, skipped)  # the receiver, not the method name
+            kids: list[ast.AST] = list(e.args) + [k.value for k in e.keywords]
+        else:
+            kids = [ch for ch in ast.iter_child_nodes(e) if isinstance(ch, (ast.expr, ast.comprehension, ast.keyword))]
+        for ch in kids:
+            if isinstance(ch, ast.comprehension):
+                out |= self.sources(ch.iter, node, seen, skipped)
+                for c in ch.ifs:
+                    out |= self.sources(c, node, seen, skipped)
+            elif isinstance(ch, ast.keyword):
+                out |= self.sources(ch.value, node, seen, skipped)
+            else:
+                out |= self.sources(ch.value if isinstance(ch, ast.Starred) else ch, node, seen, skipped)
+        return out
+
+    def _alias_roots(self, name: str, node: Node, depth: int) -> set[str]:
+        """a local that only stands for another name / attribute chain is replaced by it."""
+        defs = self.rd.reaching(node, name)
+        if depth < 4 and defs and all(d.kind == "assign" and d.index is None and isinstance(d.value, (ast.Name, ast.Attribute)) and d.node is not None for d in defs):
+            out: set[str] = set()
+            for d in defs:
+                base, attrs = _attr_chain(d.value)  # type: ignore[arg-type]
+                if not isinstance(base, ast.Name):
+                    return {name}
+                for r in self._alias_roots(base.id, d.node, depth + 1):  # type: ignore[arg-type]
+                    out.add(".".join([r] + attrs))
+            return out
+        return {name}
+
+
+def _covered(key: str, have: set[str]) -> bool:
+    return any(key == k or key.startswith(k + ".") for k in have)
+
+
+def _mapping_index(annotations: list[ast.AST | None]) -> int | None:
+    """the one position whose declared type is a mapping."""
+    hits = [i for i, a in enumerate(annotations) if a is not None and any(w in norm(a) for w in ("Mapping", "dict", "Dict"))]
+    return hits[0] if len(hits) == 1 else None
+
+
+def alias_values_rule(ctx: Ctx, m: Matcher | None = None) -> None:
+    """R12.7"""
+    m = m or Matcher(ctx)
+    repo = ctx.repo
+    mfi = repo.func(f"{MATCHER}.match")
+    fnT = mfi.node
+    # the signal: the routing exception the matcher raises with a mapping of matched values
+    raises: list[tuple[ast.Raise, ast.AST, str]] = []
+    for fn in m.funcs:
+        owner = m.owner_fi[id(fn)]
+        for r in (x for x in walk_no_nested(fn) if isinstance(x, ast.Raise) and isinstance(x.exc, ast.Call)):
+            d = dotted(r.exc.func)
+            fq = repo.resolve(owner.module, d, owner.module.local_imports(owner.node)) if d else None
+            if fq == "werkzeug.routing.exceptions.RequestAliasRedirect":
+                raises.append((r, fn, fq))
+    ctx.floor("R12.7", "raises of the alias-redirect signal in the matcher", len(raises), 1)
+    sig = repo.try_cls("routing.exceptions.RequestAliasRedirect")
+    sinit = sig.methods.get("__init__") if sig is not None else None
+    if sinit is None:
+        raise AnalysisError("RequestAliasRedirect.__init__ missing")
+    sargs = sinit.node.args  # type: ignore[attr-defined]
+    sparams = [a for a in sargs.posonlyargs + sargs.args][1:]
+    sidx = _mapping_index([a.annotation for a in sparams])
+    if sidx is None:
+        raise AnalysisError("RequestAliasRedirect.__init__: cannot tell which parameter carries the matched values (no single mapping-typed parameter)")
+    sname = sparams[sidx].arg
+    # the match result: the mapping element of what match() returns
+    rann = getattr(fnT, "returns", None)
+    relts = rann.slice.elts if isinstance(rann, ast.Subscript) and isinstance(rann.slice, ast.Tuple) else None
+    tidx = _mapping_index(list(relts)) if relts else None
+    if tidx is None:
+        raise AnalysisError("StateMachineMatcher.match: the return annotation does not name one mapping element (the matched values)")
+    flowT = Flow(m, fnT)
+    results: list[tuple[ast.Return, ast.AST, Node]] = []
+    for ret in astq.returns_of(fnT):
+        node = flowT.g.node_of(ret)
+        v: ast.AST | None = ret.value
+        if isinstance(v, ast.Name) and node is not None:
+            ds = flowT.rd.reaching(node, v.id)
+            if len(ds) == 1 and next(iter(ds)).kind == "assign" and next(iter(ds)).index is None:
+                d0 = next(iter(ds))
+                v, node = d0.value, d0.node
+        if node is None or not isinstance(v, ast.Tuple) or len(v.elts) != len(relts or []) or any(isinstance(x, ast.Starred) for x in v.elts):
+            raise AnalysisError(f"StateMachineMatcher.match: the return at {mfi.loc(ret)} is not a literal (rule, values) pair")
+        results.append((ret, v.elts[tidx], node))
+    ctx.floor("R12.7", "returns of the match result in StateMachineMatcher.match", len(results), 1)
+
+    for i, (r, fn, _fq) in enumerate(raises):
+        where = m.owner_fi[id(fn)]
+        arg = astq.arg_or_kw(r.exc, sidx, sname)  # type: ignore[arg-type]
+        if arg is None:
+            raise AnalysisError(f"alias-redirect signal raised without its `{sname}` argument at {where.loc(r)}")
+        skipped: list[str] = []
+        if fn is fnT:
+            node = flowT.g.node_of(r)
+            if node is None:
+                raise AnalysisError("CFG node missing for the alias raise")
+            have = flowT.sources(arg, node, set(), skipped)
+        else:
+            # raised in a helper: the values are a parameter of the helper, bound at its call(s) in match()
+            flowH = Flow(m, fn)
+            hn = flowH.g.node_of(r)
+            calls = [c for c in astq.calls(fnT, nested=False) if m.callee(c, fnT) is fn]
+            if hn is None or not isinstance(arg, ast.Name) or not all(d.kind == "param" for d in flowH.rd.reaching(hn, arg.id)) or not calls:
+                raise AnalysisError(f"alias-redirect signal raised in {m.fname(fn)} at {where.loc(r)}: cannot relate its values to the match result of match()")
+            have = flowH.sources(arg, hn, set(), skipped) - {arg.id}
+            for c in calls:
+                b = m.bind(c, fn)
+                cn = flowT.g.node_of(c)
+                if b is None or arg.id not in b or cn is None:
+                    raise AnalysisError(f"call of {m.fname(fn)} at {where.loc(c)}: the values argument is not passed plainly")
+                have |= flowT.sources(b[arg.id], cn, set(), skipped)
+        for j, (ret, elt, tnode) in enumerate(results):
+            want = flowT.sources(elt, tnode, set(), [])
+            missing = sorted(k for k in want if not _covered(k, have))
+            tag = f"alias signal {i + 1}" + (f" / result {j + 1}" if len(results) > 1 else "")
+            fact = f"match result `{norm(elt)}` is made from {sorted(want)}; the signal's `{norm(arg)}` from {sorted(have)}"
+            if missing:
+                fact += f"; missing where the signal is raised: {missing}"
+                if skipped:
+                    fact += f" (not counted: {'; '.join(dict.fromkeys(skipped))})"
+            ctx.ob("R12.7", f"{m.fname(fn)}: the values raised with the alias-redirect signal include everything the match result's values are made from", not missing, fact, where, r, f"{tag} carries the complete match result")
+
+
+# ---------------------------------------------------------------------
+# a small executor over constants (R12.8)
+#
+# Runs one function's CFG forward with an environment of *known constant* locals (everything else is unknown), forking
+# on tests whose outcome is unknown, and reports the values watched expressions take where they are evaluated.  It is
+# path sensitive, so `x = a` / `if x is None: x = b` / `y = x in {...}` is decided per path, in whatever order and
+# spelling the statements come.  Only parses; evaluates nothing but Python constants.
+
+
+class _Unknown:
+    def __repr__(self) -> str:
+        return "?"
+
+
+UNKNOWN = _Unknown()
+
+
+class FDict(tuple):
+    """a constant dict display: tuple of (key, value) pairs."""
+
+
+class BudgetExceeded(Exception):
+    pass
+
+
+_STR_METHODS = {"lower", "upper", "strip", "lstrip", "rstrip", "startswith", "endswith", "removeprefix", "removesuffix", "casefold", "partition", "rpartition"}
+_BUILTINS = {"str", "bool", "frozenset", "set", "tuple", "list", "len"}
+
+
+def _uniq(xs: t.Iterable[t.Any]) -> list[t.Any]:
+    out: list[t.Any] = []
+    for x in xs:
+        if not any(x is y or (x is not UNKNOWN and y is not UNKNOWN and type(x) is type(y) and x == y) for y in out):
+            out.append(x)
+    return out
+
+
+def _truths(vals: t.Iterable[t.Any]) -> set[bool]:
+    out: set[bool] = set()
+    for v in vals:
+        if v is UNKNOWN:
+            out |= {True, False}
+        else:
+            out.add(bool(v))
+    return out
+
+
+def _store_names(node: ast.AST) -> set[str]:
+    out: set[str] = set()
+    for n in [node, *walk_no_nested(node)]:
+        if isinstance(n, ast.Name) and isinstance(n.ctx, (ast.Store, ast.Del)):
+            out.add(n.id)
+        elif isinstance(n, (ast.FunctionDef, ast.AsyncFunctionDef, ast.ClassDef)):
+            out.add(n.name)
+        elif isinstance(n, ast.alias):
+            out.add((n.asname or n.name).split(".")[0])
+        elif isinstance(n, ast.ExceptHandler) and n.name:
+            out.add(n.name)
+    return out
+
+
+class _Scope:
+    def __init__(self, fi: FuncInfo, stack: tuple[str, ...]):
+        self.fi = fi
+        self.stack = stack
+        self.locals = set(fi.params) | _store_names(fi.node)
+
+
+class ConstExec:
+    def __init__(self, repo: t.Any, selfattrs: dict[str, t.Any], budget: int = 20000):
+        self.repo = repo
+        self.selfattrs = selfattrs
+        self.budget = budget
+        self._memo: dict[tuple, list[t.Any]] = {}
+
+    # -- exploration ----------------------------------------------------
+    def explore(self, fi: FuncInfo, params: dict[str, t.Any], watch: t.Sequence[ast.AST] = (), stack: tuple[str, ...] = (), budget: int | None = None) -> tuple[list[t.Any], dict[int, list[t.Any]]]:
+        cfg = cfg_of(fi)
+        sc = _Scope(fi, stack + (fi.fq,))
+        watch_at: dict[int, list[ast.AST]] = {}
+        for w in watch:
+            n = cfg.node_of(w)
+            if n is None:
+                raise AnalysisError(f"no CFG node for `{norm(w)[:60]}` in {fi.qualname}")
+            watch_at.setdefault(n.id, []).append(w)
+        seen: dict[int, list[t.Any]] = {id(w): [] for w in watch}
+        rets: list[t.Any] = []
+        work: list[tuple[Node, dict[str, t.Any]]] = [(cfg.entry, {k: v for k, v in params.items() if v is not UNKNOWN})]
+        visited: set[tuple] = set()
+        steps, limit = 0, budget or self.budget
+        while work:
+            node, env = work.pop()
+            key = (node.id, frozenset((k, type(v).__name__, v) for k, v in env.items()))
+            if key in visited:
+                continue
+            visited.add(key)
+            steps += 1
+            if steps > limit:
+                raise BudgetExceeded(fi.qualname)
+            for w in watch_at.get(node.id, ()):
+                seen[id(w)] = _uniq(seen[id(w)] + self.ev(w, dict(env), sc))
+            work.extend(self.step(node, env, sc, cfg, rets))
+        return _uniq(rets), seen
+
+    def call(self, fi: FuncInfo, params: dict[str, t.Any], stack: tuple[str, ...]) -> list[t.Any]:
+        if fi.fq in stack or len(stack) > 4 or any(isinstance(n, (ast.Yield, ast.YieldFrom)) for n in walk_no_nested(fi.node)):
+            return [UNKNOWN]
+        key = (fi.fq, frozenset((k, type(v).__name__, v) for k, v in params.items() if v is not UNKNOWN))
+        if key not in self._memo:
+            try:
+                rets, _ = self.explore(fi, params, (), stack, budget=3000)
+            except BudgetExceeded:
+                rets = [UNKNOWN]
+            self._memo[key] = rets or [UNKNOWN]
+        return self._memo[key]
+
+    def _havoc(self, names: t.Iterable[str], env: dict[str, t.Any]) -> dict[str, t.Any]:
+        e2 = dict(env)
+        for nm in names:
+            e2.pop(nm, None)
+        return e2
+
+    def _bind(self, tg: ast.AST, v: t.Any, env: dict[str, t.Any]) -> None:
+        if isinstance(tg, ast.Name):
+            if v is UNKNOWN:
+                env.pop(tg.id, None)
+            else:
+                env[tg.id] = v
+        elif isinstance(tg, (ast.Tuple, ast.List)):
+            if isinstance(v, tuple) and not isinstance(v, FDict) and len(v) == len(tg.elts) and not any(isinstance(x, ast.Starred) for x in tg.elts):
+                for x, xv in zip(tg.elts, v):
+                    self._bind(x, xv, env)
+            else:
+                for nm in _store_names(tg):
+                    env.pop(nm, None)
+
+    def _refine(self, a: ast.AST, truth: bool, env: dict[str, t.Any], sc: _Scope) -> dict[str, t.Any]:
+        cp = astq.cmp_parts(a)
+        if cp is not None and isinstance(cp[0], ast.Name) and cp[0].id in sc.locals and cp[0].id not in env:
+            same = (isinstance(cp[1], (ast.Is, ast.Eq)) and truth) or (isinstance(cp[1], (ast.IsNot, ast.NotEq)) and not truth)
+            if same:
+                vs = self.ev(cp[2], dict(env), sc)
+                if len(vs) == 1 and vs[0] is not UNKNOWN and (vs[0] is None or isinstance(vs[0], (str, bool, int))):
+                    env = dict(env)
+                    env[cp[0].id] = vs[0]
+        return env
+
+    def step(self, node: Node, env: dict[str, t.Any], sc: _Scope, cfg: CFG, rets: list[t.Any]) -> list[tuple[Node, dict[str, t.Any]]]:
+        a = node.ast
+        out: list[tuple[Node, dict[str, t.Any]]] = []
+        if node is cfg.exit or node is cfg.raise_exit:
+            return out
+        if node.kind == "test" and a is not None:
+            e2 = dict(env)
+            ts = _truths(self.ev(a, e2, sc))
+            for s, lb in node.succs:
+                if lb == "T" and True in ts:
+                    out.append((s, self._refine(a, True, e2, sc)))
+                elif lb == "F" and False in ts:
+                    out.append((s, self._refine(a, False, e2, sc)))
+                elif lb == "exc":
+                    out.append((s, dict(env)))
+            return out
+        if node.kind == "stmt" and a is not None:
+            after = self.exec_stmt(a, env, sc, rets)
+            for s, lb in node.succs:
+                if lb == "raise":
+                    continue
+                if lb == "exc":
+                    out.append((s, self._havoc(_store_names(a), env)))
+                    continue
+                if s is cfg.exit and not isinstance(a, ast.Return):
+                    rets.append(None)
+                for e2 in after:
+                    out.append((s, e2))
+            return out
+        # loop / with / handler heads, joins, entry: what they bind is unknown
+        e2 = self._havoc(_store_names(a.target) if isinstance(a, (ast.For, ast.AsyncFor)) else
+                         set().union(*[_store_names(i.optional_vars) for i in a.items if i.optional_vars is not None]) if isinstance(a, (ast.With, ast.AsyncWith)) else
+                         ([a.name] if isinstance(a, ast.ExceptHandler) and a.name else []), env)
+        for s, lb in node.succs:
+            if lb == "raise":
+                continue
+            if s is cfg.exit:
+                rets.append(None)
+            out.append((s, e2))
+        return out
+
+    def exec_stmt(self, a: ast.AST, env: dict[str, t.Any], sc: _Scope, rets: list[t.Any]) -> list[dict[str, t.Any]]:
+        if isinstance(a, ast.Return):
+            rets.extend(self.ev(a.value, dict(env), sc) if a.value is not None else [None])
+            return [env]
+        if isinstance(a, (ast.Assign, ast.AnnAssign)):
+            if a.value is None:
+                return [env]
+            e2 = dict(env)
+            outs = []
+            for v in self.ev(a.value, e2, sc):
+                e3 = dict(e2)
+                for tg in (a.targets if isinstance(a, ast.Assign) else [a.target]):
+                    self._bind(tg, v, e3)
+                outs.append(e3)
+            return outs
+        if isinstance(a, ast.AugAssign):
+            e2 = dict(env)
+            if isinstance(a.target, ast.Name):
+                cur = e2.get(a.target.id, UNKNOWN)
+                outs = []
+                for v in self.ev(a.value, e2, sc):
+                    e3 = dict(e2)
+                    ok = isinstance(a.op, ast.Add) and cur is not UNKNOWN and v is not UNKNOWN and type(cur) is type(v) and isinstance(cur, (str, int, tuple)) and not isinstance(cur, bool)
+                    self._bind(a.target, cur + v if ok else UNKNOWN, e3)
+                    outs.append(e3)
+                return outs
+            return [e2]
+        if isinstance(a, ast.Expr):
+            e2 = dict(env)
+            self.ev(a.value, e2, sc)
+            return [e2]
+        if isinstance(a, (ast.Raise, ast.Assert, ast.Pass, ast.Break, ast.Continue, ast.Global, ast.Nonlocal)):
+            return [env]
+        return [self._havoc(_store_names(a), env)]
+
+    # -- expressions -------------------------------------------------------
+    def ev(self, e: ast.AST | None, env: dict[str, t.Any], sc: _Scope) -> list[t.Any]:
+        if e is None:
+            return [None]
+        meth = getattr(self, "ev_" + type(e).__name__, None)
+        if meth is None:
+            return [UNKNOWN]
+        return _uniq(meth(e, env, sc))
+
+    def _combos(self, lists: list[list[t.Any]]) -> list[tuple[t.Any, ...]]:
+        n = 1
+        for x in lists:
+            n *= max(len(x), 1)
+        if n > 64:
+            return [tuple(UNKNOWN for _ in lists)]
+        return list(itertools.product(*lists))
+
+    def ev_Constant(self, e: ast.Constant, env, sc):  # noqa: N802
+        return [e.value]
+
+    def ev_Name(self, e: ast.Name, env, sc):  # noqa: N802
+        if e.id in env:
+            return [env[e.id]]
+        if e.id in sc.locals:
+            return [UNKNOWN]
+        exprs = sc.fi.module.assigns.get(e.id) or []
+        if len(exprs) == 1 and len(sc.stack) < 6:
+            msc = _Scope(sc.fi, sc.stack + ("<module>",))
+            msc.locals = set()
+            return self.ev(exprs[0], {}, msc)
+        return [UNKNOWN]
+
+    def ev_Attribute(self, e: ast.Attribute, env, sc):  # noqa: N802
+        if astq.is_name(e.value, "self") and "self" not in env and sc.fi.cls is not None:
+            if e.attr in self.selfattrs:
+                return [self.selfattrs[e.attr]]
+            _, what = self.repo.lookup(sc.fi.cls, e.attr)
+            if isinstance(what, FuncInfo) and any(d.rsplit(".", 1)[-1] in ("property", "cached_property") for d in what.decorators):
+                return self.call(what, {}, sc.stack)
+            if isinstance(what, ast.expr) and len(sc.stack) < 6 and not any(is_self_attr(n, e.attr) and isinstance(n.ctx, ast.Store) for f in sc.fi.cls.methods.values() for n in ast.walk(f.node)):
+                csc = _Scope(sc.fi, sc.stack + ("<class>",))  # a class-level constant no method rebinds
+                csc.locals = set()
+                return self.ev(what, {}, csc)
+        return [UNKNOWN]
+
+    def _seq(self, e, env, sc, make):
+        if any(isinstance(x, ast.Starred) for x in e.elts):
+            return [UNKNOWN]
+        out = []
+        for combo in self._combos([self.ev(x, env, sc) for x in e.elts]):
+            out.append(UNKNOWN if any(v is UNKNOWN for v in combo) else make(combo))
+        return out
+
+    def ev_Tuple(self, e, env, sc):  # noqa: N802
+        return self._seq(e, env, sc, tuple)
+
+    def ev_List(self, e, env, sc):  # noqa: N802
+        return self._seq(e, env, sc, tuple)
+
+    def ev_Set(self, e, env, sc):  # noqa: N802
+        return self._seq(e, env, sc, frozenset)
+
+    def ev_Dict(self, e: ast.Dict, env, sc):  # noqa: N802
+        if any(k is None for k in e.keys):
+            return [UNKNOWN]
+        out = []
+        n = len(e.keys)
+        for combo in self._combos([self.ev(x, env, sc) for x in list(e.keys) + list(e.values)]):
+            out.append(UNKNOWN if any(v is UNKNOWN for v in combo) else FDict(zip(combo[:n], combo[n:])))
+        return out
+
+    @staticmethod
+    def _cmp(op: ast.cmpop, a: t.Any, b: t.Any) -> t.Any:
+        try:
+            if isinstance(op, (ast.Is, ast.IsNot)):
+                r = (a is b) if (a is None or b is None or isinstance(a, bool) or isinstance(b, bool)) else (type(a) is type(b) and a == b)
+                return r if isinstance(op, ast.Is) else not r
+            if isinstance(op, ast.Eq):
+                return a == b
+            if isinstance(op, ast.NotEq):
+                return a != b
+            if isinstance(op, (ast.In, ast.NotIn)):
+                box = [k for k, _ in b] if isinstance(b, FDict) else b
+                if not isinstance(box, (tuple, list, frozenset, str)) or (isinstance(box, str) and not isinstance(a, str)):
+                    return UNKNOWN
+                r = a in box
+                return r if isinstance(op, ast.In) else not r
+            if isinstance(op, ast.Lt):
+                return a < b
+            if isinstance(op, ast.LtE):
+                return a <= b
+            if isinstance(op, ast.Gt):
+                return a > b
+            if isinstance(op, ast.GtE):
+                return a >= b
+        except TypeError:
+            pass
+        return UNKNOWN
+
+    def ev_Compare(self, e: ast.Compare, env, sc):  # noqa: N802
+        out = []
+        for combo in self._combos([self.ev(x, env, sc) for x in [e.left, *e.comparators]]):
+            if any(v is UNKNOWN for v in combo):
+                out.append(UNKNOWN)
+                continue
+            res: t.Any = True
+            for op, a, b in zip(e.ops, combo, combo[1:]):
+                r = self._cmp(op, a, b)
+                if r is UNKNOWN:
+                    res = UNKNOWN
+                    break
+                if not r:
+                    res = False
+                    break
+            out.append(res)
+        return out
+
+    def ev_BoolOp(self, e: ast.BoolOp, env, sc):  # noqa: N802
+        is_or = isinstance(e.op, ast.Or)
+
+        def go(i: int) -> list[t.Any]:
+            vals = self.ev(e.values[i], env, sc)
+            if i == len(e.values) - 1:
+                return vals
+            out: list[t.Any] = []
+            rest: list[t.Any] | None = None
+            for v in vals:
+                if v is UNKNOWN:
+                    out.append(UNKNOWN)
+                elif bool(v) == is_or:
+                    out.append(v)
+                else:
+                    if rest is None:
+                        rest = go(i + 1)
+                    out += rest
+            return out
+
+        return go(0)
+
+    def ev_UnaryOp(self, e: ast.UnaryOp, env, sc):  # noqa: N802
+        if isinstance(e.op, ast.Not):
+            return [UNKNOWN if v is UNKNOWN else (not v) for v in self.ev(e.operand, env, sc)]
+        return [UNKNOWN]
+
+    def ev_IfExp(self, e: ast.IfExp, env, sc):  # noqa: N802
+        ts = _truths(self.ev(e.test, env, sc))
+        out: list[t.Any] = []
+        if True in ts:
+            out += self.ev(e.body, env, sc)
+        if False in ts:
+            out += self.ev(e.orelse, env, sc)
+        return out
+
+    @staticmethod
+    def _fmt(v: t.Any, conversion: int) -> t.Any:
+        if v is UNKNOWN or not (v is None or isinstance(v, (str, int, bool))):
+            return UNKNOWN
+        if conversion == 114:
+            return repr(v)
+        return str(v) if conversion in (-1, 115) else UNKNOWN
+
+    def ev_FormattedValue(self, e: ast.FormattedValue, env, sc):  # noqa: N802
+        if e.format_spec is not None:
+            return [UNKNOWN]
+        return [self._fmt(v, e.conversion) for v in self.ev(e.value, env, sc)]
+
+    def ev_JoinedStr(self, e: ast.JoinedStr, env, sc):  # noqa: N802
+        out = []
+        for combo in self._combos([self.ev(x, env, sc) for x in e.values]):
+            out.append(UNKNOWN if any(not isinstance(v, str) for v in combo) else "".join(combo))
+        return out
+
+    def ev_BinOp(self, e: ast.BinOp, env, sc):  # noqa: N802
+        out = []
+        for a, b in self._combos([self.ev(e.left, env, sc), self.ev(e.right, env, sc)]):
+            ok = isinstance(e.op, ast.Add) and a is not UNKNOWN and b is not UNKNOWN and type(a) is type(b) and isinstance(a, (str, int, tuple)) and not isinstance(a, (bool, FDict))
+            out.append(a + b if ok else UNKNOWN)
+        return out
+
+    def ev_NamedExpr(self, e: ast.NamedExpr, env, sc):  # noqa: N802
+        vals = self.ev(e.value, env, sc)
+        self._bind(e.target, vals[0] if len(vals) == 1 else UNKNOWN, env)
+        return vals
+
+    def ev_Subscript(self, e: ast.Subscript, env, sc):  # noqa: N802
+        out = []
+        for b, i in self._combos([self.ev(e.value, env, sc), self.ev(e.slice, env, sc)]):
+            r: t.Any = UNKNOWN
+            if b is not UNKNOWN and i is not UNKNOWN:
+                if isinstance(b, FDict):
+                    hit = [v for k, v in b if type(k) is type(i) and k == i]
+                    r = hit[-1] if hit else UNKNOWN
+                elif isinstance(b, (tuple, str)) and isinstance(i, int) and not isinstance(i, bool) and -len(b) <= i < len(b):
+                    r = b[i]
+            out.append(r)
+        return out
+
+    def ev_Call(self, e: ast.Call, env, sc):  # noqa: N802
+        f = e.func
+        plain = not e.keywords and not any(isinstance(x, ast.Starred) for x in e.args)
+        if isinstance(f, ast.Name) and f.id in _BUILTINS and f.id not in sc.locals and f.id not in sc.fi.module.assigns and plain and len(e.args) <= 1:
+            if not e.args:
+                return [{"str": "", "bool": False, "frozenset": frozenset(), "set": frozenset(), "tuple": (), "list": (), "len": UNKNOWN}[f.id]]
+            out = []
+            for v in self.ev(e.args[0], env, sc):
+                r: t.Any = UNKNOWN
+                if v is not UNKNOWN:
+                    if f.id == "bool":
+                        r = bool(v)
+                    elif f.id == "str" and (v is None or isinstance(v, (str, int, bool))):
+                        r = str(v)
+                    elif f.id in ("frozenset", "set") and isinstance(v, (tuple, frozenset, str)) and not isinstance(v, FDict):
+                        r = frozenset(v)
+                    elif f.id in ("tuple", "list") and isinstance(v, (tuple, str)) and not isinstance(v, FDict):
+                        r = tuple(v)
+                    elif f.id == "len" and isinstance(v, (tuple, frozenset, str)):
+                        r = len(v)
+                out.append(r)
+            return out
+        if isinstance(f, ast.Attribute) and astq.is_name(f.value, "self") and "self" not in env and sc.fi.cls is not None:
+            _, what = self.repo.lookup(sc.fi.cls, f.attr)
+            if isinstance(what, FuncInfo):
+                return self.call(what, self._bind_call(what, e, env, sc), sc.stack)
+            return [UNKNOWN]
+        if isinstance(f, ast.Attribute) and plain:
+            out = []
+            for combo in self._combos([self.ev(f.value, env, sc)] + [self.ev(x, env, sc) for x in e.args]):
+                recv, args = combo[0], combo[1:]
+                r = UNKNOWN
+                if not any(v is UNKNOWN for v in combo):
+                    try:
+                        if isinstance(recv, str) and f.attr in _STR_METHODS and all(isinstance(x, (str, tuple)) for x in args):
+                            r = getattr(recv, f.attr)(*args)
+                        elif isinstance(recv, FDict) and f.attr == "get" and 1 <= len(args) <= 2:
+                            hit = [v for k, v in recv if type(k) is type(args[0]) and k == args[0]]
+                            r = hit[-1] if hit else (args[1] if len(args) == 2 else None)
+                    except (TypeError, ValueError):
+                        r = UNKNOWN
+                out.append(r)
+            return out
+        for x in list(e.args) + [k.value for k in e.keywords]:  # walrus side effects / nothing else
+            self.ev(x.value if isinstance(x, ast.Starred) else x, env, sc)
+        return [UNKNOWN]
+
+    def _bind_call(self, callee: FuncInfo, call: ast.Call, env, sc) -> dict[str, t.Any]:
+        a = callee.node.args  # type: ignore[attr-defined]
+        pos = [x.arg for x in a.posonlyargs + a.args]
+        out: dict[str, t.Any] = {}
+        for name, d in list(zip(reversed(pos), reversed(a.defaults))) + [(k.arg, d) for k, d in zip(a.kwonlyargs, a.kw_defaults) if d is not None]:
+            out[name] = d.value if isinstance(d, ast.Constant) else UNKNOWN
+        if callee.cls is not None and "staticmethod" not in callee.decorators and pos:
+            pos = pos[1:]
+
+        def one(x: ast.AST) -> t.Any:
+            vs = self.ev(x, env, sc)
+            return vs[0] if len(vs) == 1 else UNKNOWN
+
+        if any(isinstance(x, ast.Starred) for x in call.args) or any(k.arg is None for k in call.keywords):
+            return {}
+        for i, x in enumerate(call.args):
+            if i < len(pos):
+                out[pos[i]] = one(x)
+        for k in call.keywords:
+            out[k.arg] = one(k.value)  # type: ignore[index]
+        return {k: v for k, v in out.items() if v is not UNKNOWN}
